@@ -436,3 +436,22 @@ def run(repo: Repo, rep: Report) -> None:  # noqa: F811
              "every memo in rdflib.namespace and in the in-memory stores' prefix tables (a dict attribute a method both looks up and fills under the same key) is keyed by "
              "every re-bindable instance attribute its value is computed from, or re-binding that attribute invalidates the memo", floor=4)
     memo.scan(repo, rep, "C17.h-namespace-memos-key-complete", ["rdflib.namespace", "rdflib.plugins.stores.memory"])
+
+    # ------------------------------------------------------------------ (i)
+    rep.rule("C17.i-bind-writes-only-the-requested-pair",
+             "Memory.bind / SimpleMemory.bind write into the two prefix maps only the pair they were asked to bind (key and value are the parameters prefix / namespace). "
+             "The looked-up existing bindings (the namespace the prefix has, the prefix the namespace has) come from two different entries; a write that combines them "
+             "(`P[bound_namespace or namespace] = bound_prefix or prefix` together with its mirror) binds the prefix of one existing entry to the namespace of the other when "
+             "both are in use, and the maps stop being inverse", floor=4)
+    mem = repo.mod("rdflib.plugins.stores.memory")
+    for cls in ("Memory", "SimpleMemory"):
+        fn = mem.func(cls + ".bind")
+        params = {a.arg for a in fn.args.args[1:3]}
+        for st in own_nodes(fn):
+            if isinstance(st, ast.Assign) and len(st.targets) == 1 and isinstance(st.targets[0], ast.Subscript) and _self_attr(st.targets[0].value):
+                names = {n.id for part in (st.targets[0].slice, st.value) for n in ast.walk(part) if isinstance(n, ast.Name)} - {"_coalesce"}
+                foreign = sorted(names - params)
+                rep.ob("C17.i-bind-writes-only-the-requested-pair", mem, cls + ".bind", st, not foreign,
+                       "the requested pair" if not foreign else
+                       "the entry written is assembled from looked-up bindings (%s): with override=False, bind('p', N2) while p -> N1 and q -> N2 exist writes q -> N1 and N1 -> q, leaving p -> N1 and N2 -> q behind: "
+                       "two prefixes for N1, and qname(N2 + x) = 'q:x' expands to N1 + x" % ", ".join(foreign), node=st)
